@@ -492,6 +492,46 @@ def zoob (g m : String) : Option Handler :=
   else if m = "okboom" then some ⟨.request, .okboom⟩
   else none
 
+/-! ## `RouteService.doRoute`: the application's route function may panic
+
+`doRoute(serverType, param)` runs the function registered for the type under a deferred `recover()`:
+`defer func() { if err := recover(); err != nil { log } }(); return f(serverType, param)`.  A route
+function that PANICS for this session (`none`: the usual `param.Get("chatid", "").(string)` on a key
+that a back-end pushed as a JSON number) is recovered THERE and the unnamed result is its zero value
+`""`; `app.RoutePID("")` finds no service → the forwarder answers "can not find target service".
+`Cfg.route` is the result of `doRoute`. -/
+def doRoute (f : String → Sess → Option String) (t : String) (s : Sess) : String := (f t s).getD ""
+
+/-! ## `pomelo.StartAcceptor`: accepted connections → sessions
+
+`for conn := range a.GetConnChan() { s := session.NewClientSession(conn, cfg); s.Handle() }`: every
+connection the acceptor queued is turned into ONE session, built in the loop's own frame on the
+connection just received.  `acceptLoop conns` = the connection each new session reads, in creation
+order (connections are numbers). -/
+def acceptLoop : List Nat → List Nat
+  | [] => []
+  | conn :: rest => conn :: acceptLoop rest
+
+/-- how many sessions read connection `c` -/
+def servedBy (sessions : List Nat) (c : Nat) : Nat := sessions.count c
+
+/-- NOT the code: a goroutine per connection that reads the loop variable when it RUNS — in a
+`go 1.21` module one variable for all iterations; `lag k` = how many further connections the loop has
+received by the time the k-th goroutine reads it. -/
+def acceptDeferred (conns : List Nat) (lag : Nat → Nat) : List Nat :=
+  (List.range conns.length).filterMap fun k => conns[min (k + lag k) (conns.length - 1)]?
+
+/-- the tie's route function of type chat, as an application writes it: an UNCHECKED type assertion
+on the session key.  A key shown as `#<n>` holds the number n, not a string: the assertion panics. -/
+def tieRouteFn (n2working : Bool) (t : String) (s : Sess) : Option String :=
+  if t = "chat" then
+    (match s.key with
+     | some k => if k.toList.head? = some '#' then none else if k = "" then some "no_service" else some k
+     | none => some "no_service")
+  else if t = "hall" then some (if n2working then "hall-2" else "hall-1")
+  else if t = "gate" then some "gate-1"
+  else some "no_service"
+
 /-- node n1 (always Working): front `gate-1`, `chat-1`, `hall-1`, and `chat-9` which is listed in the
 directory but has no actor behind its PID; node n2 (its state changes during a run, `n2working`):
 `chat-2`, `hall-2`.  Type chat is routed by the session key `chatid` — the rule names the instance and
@@ -511,13 +551,6 @@ def tieCfg (n2working : Bool) : Cfg where
     else if n = "hall-1" ∨ n = "hall-2" then some ⟨"hall", true⟩
     else if n = "chat-9" then some ⟨"chat", false⟩
     else none
-  route := fun t s =>
-    if t = "chat" then
-      (match s.key with
-       | some k => if k = "" then "no_service" else k
-       | none => "no_service")
-    else if t = "hall" then (if n2working then "hall-2" else "hall-1")
-    else if t = "gate" then "gate-1"
-    else "no_service"
+  route := doRoute (tieRouteFn n2working)
 
 end Cell2v.ClientServe
